@@ -367,11 +367,16 @@ func (s *Sched) Taken() []byte {
 //go:norace
 func (s *Sched) noteState() {
 	var h uint64 = 1469598103934665603
+	// held locks enter as a sum: the order of the lock records depends on which addresses the allocator hands
+	// out (a block evicted from the cache may or may not have its address reused), the set of held locks does not
+	var held uint64
 	for k := 0; k < s.nlocks; k++ {
 		if s.locks[k].owner != 0 {
-			h = (h ^ uint64(s.locks[k].owner)*131 ^ hashStr(s.locks[k].name)) * 1099511628211
+			x := (uint64(s.locks[k].owner)*131 ^ hashStr(s.locks[k].name)) * 0x9e3779b97f4a7c15
+			held += x ^ x>>29
 		}
 	}
+	h = (h ^ held) * 1099511628211
 	for i := 0; i < s.ntasks; i++ {
 		if !s.tasks[i].done {
 			h = (h ^ uint64(i+1)*977 ^ hashStr(s.tasks[i].point)) * 1099511628211
